@@ -1,77 +1,456 @@
-"""C01 — control flow and variables determine exactly which rows run.
-(AUT extraction and the per-construct obligations; see DESIGN.md section 5.)"""
+"""C01 — control flow and variables determine exactly which rows run, and in what order.
+
+AUT: the resumable interpreter `StmtIterator::next_with_context` is extracted as an
+automaton (states = variants of the dispatched state field; edges = acyclic paths
+from a state's arm back to the dispatch or to a return, with guards, ordered
+effects, next state and exit shape).  States are classified by what their edges
+do, never by name.  The per-construct obligations 1-10 of DESIGN.md are decided
+on the automaton; the structural induction that makes them sufficient is written
+once, by hand, in DESIGN.md."""
 import re
-from ..core import pan, terms, tab
+from ..core import pan, terms, tab, ordrules
 from ..core.facts import callee_name
 from ..core.prog import canon, Prog
 
 NWC = "stmt::StmtIterator::next_with_context"
+EC = "eval_context::EvalContext::"
+FM = "framed_map::FramedMap::"
+EFFECTS = (EC, "expr::Expr::eval", "stmt::DataEntry::eval", NWC, "<std::slice::Iter<T> as std::iter::Iterator>::next", "stmt::LoopState::take", "stmt::WhileState::take")
 
 
+# ---- helpers kept for other modules ------------------------------------------------------
 def state_arms(P, b):
-    """Map block -> set of state variant names of `self.inner_state` that dominate it."""
     cfg = P.cfg(b)
     out = {}
     for bb in b.reachable_blocks():
         arms = [a for a in pan.arm_context(b, bb, cfg) if a.get("enum", "").endswith("StmtIteratorState") and canon(a["on"]) == "self.inner_state"]
         if arms:
-            out[bb] = tuple(arms[-1]["variants"])   # outermost dispatch
+            out[bb] = tuple(arms[-1]["variants"])
     return out
 
 
 def ctx_effects(P, b):
-    """[(bb, state arm, effect name, [arg canon])] for calls on the EvalContext."""
     arms = state_arms(P, b)
     out = []
     for bb, t in b.calls():
         nm = callee_name(t)[0]
-        if nm.startswith("eval_context::EvalContext::"):
+        if nm.startswith(EC):
             out.append((bb, arms.get(bb), nm.split("::")[-1], [canon(x) for x in P.call_arg_terms(b, bb)]))
     return out
 
 
+# ---- automaton extraction ---------------------------------------------------------------------
+def norm(s):
+    s = re.sub(r"\(self\.inner_state as \w+\)", "ST", s)
+    s = s.replace("some!(Iterator::next(self.stmt_iter))", "STMT")
+    s = re.sub(r"(LoopState|WhileState)::take\(([^()]*)\)", r"\2", s)   # take() moves the payload
+    return s
+
+
+class Automaton:
+    def __init__(self, P, b):
+        self.P, self.b = P, b
+        cfg = P.cfg(b)
+        self.disp = None
+        for bb in cfg.rpo():
+            t = b.term(bb)
+            if t["t"] == "switch":
+                d = terms.strip(P.operand_term(b, bb, t["discr"]))
+                if d[0] == "discr" and canon(d[1]) == "self.inner_state":
+                    self.disp = bb
+                    break
+        self.edges = []
+        self.states = []
+        self.inner_loop_calls = {}
+        if self.disp is None:
+            return
+        comp = [c for c in cfg.sccs() if self.disp in c and len(c) > 1]
+        if not comp:
+            return
+        cs = set(comp[0])
+        heads = [x for x in comp[0] if any(p not in cs for p in b.preds(x))]
+        self.head = heads[0]
+        vs = pan._variants_of_discr(b, b.term(self.disp)["discr"], self.disp)
+        cyc = cfg.cyclic_blocks()
+        for val, tgt in b.term(self.disp)["targets"]:
+            name = [v["name"] for v in vs if v["discr"] == val][0]
+            self.states.append(name)
+            for pi in tab.paths(P, b, start=tgt, stop=lambda x: x == self.head, limit=50000):
+                last = pi.path[-1]
+                if pi.back is not None:
+                    continue   # iteration of an inner `for`: summarised below
+                if last == self.head:
+                    kind = "loop"
+                elif b.term(last)["t"] == "return":
+                    kind = "return"
+                else:
+                    continue
+                effs = [(nm.split("::")[-1], tuple(norm(canon(x)) for x in a)) for bb, nm, a in pi.calls() if nm.startswith(EFFECTS) and not nm.endswith("::take")]
+                guards = []
+                for d in pi.decisions():
+                    if d[0] == "variant" and d[1] == "self.inner_state":
+                        continue
+                    if d[0] == "variant":
+                        guards.append(("variant", norm(d[1]), d[2]))
+                for f in pi.cmp_facts():
+                    if f[0] != "call":
+                        guards.append((f[0], norm(f[1]), norm(f[2])))
+                nxt = None
+                nxt_t = None
+                for bb in pi.path:
+                    for i, s_ in enumerate(b.blocks[bb]["stmts"]):
+                        if s_["s"] == "assign" and [e.get("f") if isinstance(e, dict) else e for e in s_["lhs"]["p"]] == ["*", "inner_state"]:
+                            nxt_t = terms.strip(pi.sl.rvalue(s_["rv"], bb, i))
+                            nxt = (nxt_t[2].split("::")[-1], norm(canon(nxt_t)))
+                ret = norm(canon(pi.ret())) if kind == "return" else None
+                self.edges.append({"state": name, "kind": kind, "guards": guards, "effects": effs, "next": nxt, "ret": ret, "shape": ordrules.ret_shape(pi) if kind == "return" else None, "path": pi.path})
+            # calls inside inner loops of this arm
+        arms = state_arms(P, b)
+        for bb, t in b.calls():
+            if bb in cyc and bb != self.head:
+                # is bb in a cycle that does not contain the dispatch? (an inner for loop)
+                inner = [c for c in cfg.sccs() if bb in c and self.disp not in c and len(c) > 1]
+                if inner:
+                    nm = callee_name(t)[0]
+                    self.inner_loop_calls.setdefault(arms.get(bb), []).append((nm, [norm(canon(x)) for x in P.call_arg_terms(b, bb)]))
+
+    def out(self, state):
+        return [e for e in self.edges if e["state"] == state]
+
+    def roles(self):
+        r = {}
+        for s in self.states:
+            effs = set(e_[0] for e in self.out(s) for e_ in e["effects"])
+            argsof = lambda name: [a for e in self.out(s) for n, a in e["effects"] if n == name]
+            if any(a and a[0] == "self.stmt_iter" for a in argsof("next")):
+                r[s] = "fetch"
+            elif "push_frame" in effs:
+                r[s] = "loop_entry"
+            elif "pop_frame" in effs:
+                r[s] = "loop_end"
+            elif any(a and a[0].endswith(".condition") for a in argsof("eval")):
+                r[s] = "while_test"
+            elif "next_with_context" in effs:
+                r[s] = "run?"
+            else:
+                r[s] = "body_start?"
+        # disambiguate the two nested-run states by where they go when the body is drained
+        for s in [x for x in r if r[x] == "run?"]:
+            nxts = set(r.get(e["next"][0]) for e in self.out(s) if e["next"])
+            r[s] = "body_run" if "loop_end" in nxts else "while_run" if "while_test" in nxts else "run?"
+        for s in [x for x in r if r[x] == "body_start?"]:
+            nxts = set(r.get(e["next"][0]) for e in self.out(s) if e["next"])
+            r[s] = "body_start" if "body_run" in nxts else "?"
+        return r
+
+
 def counter_lemma(P, chk):
-    """The loop counter read at the end of an iteration is bound: (a) variables
-    shadow outputs and are wrapped in Value; (b) the state that reads the counter
-    is entered only after the state that pushes a frame and sets the counter, and
-    the frame is popped only when the loop is left."""
-    ok = True
-
-    def ob(oid, cond, okd, bad, site=""):
-        nonlocal ok
-        ok &= bool(chk.require(bool(cond), "LEMMA", "lemma:COUNTER:" + oid, okd, bad, site))
-
-    g = P.body("eval_context::EvalContext::get")
-    if g is None:
-        ob("get-anchor", False, "", "EvalContext::get not found")
-    else:
-        shapes = set()
-        for pi in tab.paths(P, g, to_return_only=True):
-            dec = [(d[1], d[2]) for d in pi.decisions() if d[0] == "variant"]
-            shapes.add((tuple(dec), canon(pi.ret())))
-        want = {((("FramedMap::get(self.vars, name)", ("Some",)),), "Option::Some{0: OutputValue::Value{0: some!(FramedMap::get(self.vars, name))}}"),
-                ((("FramedMap::get(self.vars, name)", ("None",)),), "Option::cloned(HashMap::get(self.outputs, name))")}
-        ob("get-variables-first", shapes == want, "get(): vars first (as Value), outputs only on the None edge", "EvalContext::get has shape %s" % sorted(shapes))
+    """Used by C10 to discharge the loop-counter unwrap/expect: variables shadow outputs
+    and the counter is bound in the loop's own frame while the loop is active (obligation 4)."""
+    from .iter_rules import get_shape_rule
+    ok = bool(get_shape_rule(chk, P))
     b = P.body(NWC)
     if b is None:
-        ob("nwc-anchor", False, "", "next_with_context not found")
-        return ok
-    eff = ctx_effects(P, b)
-    push = [e for e in eff if e[2] == "push_frame"]
-    pop = [e for e in eff if e[2] == "pop_frame"]
-    gets = [e for e in eff if e[2] == "get"]
-    sets = [e for e in eff if e[2] == "set"]
-    ob("one-push-one-pop", len(push) == 1 and len(pop) == 1, "1 push_frame / 1 pop_frame", "%d push_frame and %d pop_frame sites" % (len(push), len(pop)))
-    if len(push) == 1 and len(pop) == 1 and gets:
-        A, B = push[0][1], pop[0][1]
-        init = [e for e in sets if e[1] == A and re.fullmatch(r"\(self\.inner_state as \w+\)\.0\.variable", e[3][1]) and e[3][2] == "0"]
-        ob("counter-set-with-push", bool(init), "state %s: push_frame(); set(variable, 0)" % (A,), "the state that pushes the frame does not set the counter to 0")
-        rd = [e for e in gets if re.fullmatch(r"\(self\.inner_state as \w+\)\.0\.variable", e[3][1])]
-        ob("counter-read-in-pop-state", rd and all(e[1] == B for e in rd), "counter read in state %s, which is the only one that pops" % (B,), "counter read in %s but frame popped in %s" % ([e[1] for e in rd], B))
+        chk.fail("ANCHOR", "anchor:next_with_context", "next_with_context not found")
+        return False
+    A = Automaton(P, b)
+    ok &= frames_obligation(chk, A, prefix="lemma:COUNTER:")
     return ok
+
+
+def frames_obligation(chk, A, prefix=""):
+    """Obligation 4 (+ the counter is set right after the push and read only in the popping state)."""
+    R = A.roles()
+    ok = True
+    depth = {}
+    fetch = [s for s, r in R.items() if r == "fetch"]
+    if len(fetch) != 1:
+        chk.fail("AUT", prefix + "AUT:frames:fetch-state", "cannot identify the statement-fetching state (roles %s)" % R)
+        return False
+    depth[fetch[0]] = 0
+    work = [fetch[0]]
+    bad = []
+    while work:
+        s = work.pop()
+        for e in A.out(s):
+            d = depth[s]
+            for n, a in e["effects"]:
+                if n == "push_frame":
+                    d += 1
+                elif n == "pop_frame":
+                    d -= 1
+            if e["kind"] == "return":
+                if d != depth[s]:
+                    bad.append("state %s returns at frame depth %+d relative to its own" % (R.get(s), d - depth[s]))
+                continue
+            t = e["next"][0] if e["next"] else s
+            if t not in depth:
+                depth[t] = d
+                work.append(t)
+            elif depth[t] != d:
+                bad.append("state %s is entered at frame depths %d and %d" % (R.get(t, t), depth[t], d))
+    byrole = {R.get(s, s): d for s, d in depth.items()}
+    want = {"fetch": 0, "loop_entry": 0, "body_start": 1, "body_run": 1, "loop_end": 1, "while_test": 0, "while_run": 0}
+    ok &= bool(chk.require(not bad and byrole == want, "AUT", prefix + "AUT:4:frame-pairing", "every state has one frame depth: loop states 1 (between one push and one pop), while states 0, fetch 0", "frame depths: %s; inconsistencies: %s" % (byrole, bad[:3])))
+    # counter set with the push; read in the popping state
+    for s in [x for x, r in R.items() if r == "loop_entry"]:
+        pushes = [e for e in A.out(s) if any(n == "push_frame" for n, a in e["effects"])]
+        good = bool(pushes) and all([n for n, a in e["effects"]][:2] == ["push_frame", "set"] and e["effects"][1][1][1:] == ("ST.0.variable", "0") for e in pushes)
+        ok &= bool(chk.require(good, "AUT", prefix + "AUT:6a:counter-initialised-to-0-after-push", "push_frame(); set(variable, 0)", "loop entry edges: %s" % [e["effects"] for e in pushes]))
+    for s in [x for x, r in R.items() if r == "loop_end"]:
+        gets = [a for e in A.out(s) for n, a in e["effects"] if n == "get"]
+        ok &= bool(chk.require(bool(gets) and all(a[1] == "ST.0.variable" for a in gets), "AUT", prefix + "AUT:6b:counter-read-in-popping-state", "get(variable) in the state that pops", "loop end reads %s" % gets))
+    return ok
+
+
+PREV = r"Option::expect\(OutputValue::value\(Option::unwrap\(EvalContext::get\(ctx, ST\.0\.variable\)\)\), '[^']*'\)"
+STEP = re.compile(r"^(i64::saturating_add|i64::wrapping_add)\(%s, 1\)$|^AddWithOverflow\(%s, 1\)\.0$|^Add\(%s, 1\)$" % (PREV, PREV, PREV))
 
 
 def run(chk, ctx):
     P = Prog(ctx["facts"])
-    chk.explanation = "C01 (under construction): counter lemma only"
-    counter_lemma(P, chk)
+    chk.explanation = ("C01 decided as the per-construct obligations of a structural induction (DESIGN.md section 5, C01) on the automaton extracted from the resumable interpreter: states are the variants of the dispatched state field, edges are the acyclic paths from a state's arm to the dispatch or a return, "
+                       "with guards, ordered effects (push_frame / pop_frame / set / get / Expr::eval tagged with the origin of its expression / DataEntry::eval / reset_random_seed / slice iterator next / nested next_with_context), next state and exit shape; states are classified by their edges, never by name. "
+                       "Obligations: 1 sequencing, 2 row, 3 let, 4 frame pairing, 5 bound evaluated once, 6 counter protocol, 7 zero-trip guard, 8 body, 9 while, 10 resetRandom; plus FramedMap discipline, the MSB-first bits expansion and the parser's repeat/loop/while desugaring. "
+                       "The claim is 'all local obligations hold on all paths', not 'the rows equal a reference interpreter's': no program is executed.")
+    chk.trusted = ["std: slice::Iter is forward and fused; Vec::extend appends in order", "the hand induction of DESIGN.md"]
+    b = P.body(NWC)
+    if not chk.anchor("next_with_context", b):
+        return
+    A = Automaton(P, b)
+    if not chk.anchor("state dispatch", A.disp is not None and A.edges):
+        return
+    R = A.roles()
+    inv = {}
+    for s, r in R.items():
+        inv.setdefault(r, []).append(s)
+    want_roles = ["body_run", "body_start", "fetch", "loop_end", "loop_entry", "while_run", "while_test"]
+    chk.require(sorted(R.values()) == want_roles, "AUT", "AUT:states-classified", "7 states: %s" % {s: r for s, r in R.items()}, "state roles are %s (expected one each of %s)" % (R, want_roles))
+    non_err = [e for e in A.edges if e["shape"] != "Err"]
+    chk.floor("AUT", "states", len(A.states), 7)
+    chk.floor("AUT", "non-error edges", len(non_err), 16)
+    chk.extra["automaton"] = {"states": len(A.states), "edges": len(A.edges), "non_error_edges": len(non_err)}
+    chk.sample({"roles": R})
+    for e in A.edges[:6]:
+        chk.sample({"state": R.get(e["state"]), "guards": [list(g) for g in e["guards"]][:4], "effects": [[n, list(a)] for n, a in e["effects"]], "next": R.get(e["next"][0]) if e["next"] else None, "exit": e["shape"]})
+    if sorted(R.values()) != want_roles:
+        return
+    role = lambda e: R[e["state"]]
+    nxt = lambda e: R.get(e["next"][0]) if e["next"] else None
+    F = [e for e in A.edges if role(e) == "fetch"]
+
+    def stmt_kind(e):
+        k = [g[2] for g in e["guards"] if g[0] == "variant" and g[1] == "STMT"]
+        return k[0][0] if k and len(k[0]) == 1 else None
+
+    # 1. sequencing
+    good = all(e["effects"] and e["effects"][0] == ("next", ("self.stmt_iter",)) and sum(1 for n, a in e["effects"] if n == "next" and a == ("self.stmt_iter",)) == 1 for e in F)
+    chk.require(good, "AUT", "AUT:1:one-fetch-per-edge", "every edge of the fetch state calls stmt_iter.next() exactly once, first", "fetch edges: %s" % [e["effects"][:2] for e in F if not (e["effects"] and e["effects"][0] == ("next", ("self.stmt_iter",)))])
+    nones = [e for e in A.edges if e["shape"] == "None" or (e["ret"] or "").startswith("Result::Ok{0: Option::None")]
+    good = len(nones) == 1 and role(nones[0]) == "fetch" and nones[0]["effects"] == [("next", ("self.stmt_iter",))] and nones[0]["next"] is None and ("variant", "Iterator::next(self.stmt_iter)", ("None",)) in nones[0]["guards"]
+    chk.require(good, "AUT", "AUT:1:Ok(None)-only-when-block-exhausted", "the only Ok(None) exit: fetch state, next() == None, no effect, no state change (so None is sticky)", "Ok(None) exits: %s" % [(role(e), e["effects"], e["guards"][:2]) for e in nones])
+    iters = set()
+    for (cb, bb, i, st) in P.constructors("stmt::StmtIterator"):
+        t = P.sl(cb).rvalue(st["rv"], bb, i)
+        iters.add((cb.name.split("::")[-1], re.sub(r"\(.*\)", "(..)", canon(dict(t[3])["stmt_iter"]))))
+    chk.require(all(x[1] == "[T]::iter(..)" for x in iters) and len(iters) >= 2, "AUT", "AUT:1:forward-iteration", "every StmtIterator walks its block with slice.iter() (no rev/skip/step_by adaptor)", "StmtIterator.stmt_iter built as %s" % sorted(iters))
+    # 2. row
+    rows = [e for e in F if stmt_kind(e) == "DataRow" and e["shape"] != "Err"]
+    good = bool(rows) and all(e["kind"] == "return" and re.fullmatch(r"Result::Ok\{0: Option::Some\{0: stmt::DataEntries\{entries: Vec::new\(\), line: \(STMT as DataRow\)\.line, update_output: 1\}\}\}", e["ret"]) for e in rows)
+    chk.require(good, "AUT", "AUT:2:row-yields-immediately", "Ok(Some(DataEntries{entries, line: *line, update_output: true})) with no further effect", "DataRow edges: %s" % [(e["kind"], e["ret"]) for e in rows])
+    inner = [c for arm, cs in A.inner_loop_calls.items() if arm and R.get(arm[0]) == "fetch" for c in cs]
+    evals = [a for n, a in inner if n == "stmt::DataEntry::eval"]
+    exts = [a for n, a in inner if n.endswith("iter::Extend<T>>::extend")]
+    ITER = "IntoIterator::into_iter((STMT as DataRow).data)"
+    good = evals == [["some!(Iterator::next(%s))" % ITER, "ctx"]] and exts == [["Vec::new()", "try(DataEntry::eval(some!(Iterator::next(%s)), ctx))" % ITER]]
+    chk.require(good, "AUT", "AUT:2:entries-evaluated-in-slice-order", "for entry in data { entries.extend(entry.eval(ctx)?) }", "row loop evaluates %s and extends with %s" % (evals, exts))
+    # 3. let
+    lets = [e for e in F if stmt_kind(e) == "Let" and e["shape"] != "Err"]
+    want = [("next", ("self.stmt_iter",)), ("eval", ("(STMT as Let).expr", "ctx")), ("set", ("ctx", "(STMT as Let).name", "try(Expr::eval((STMT as Let).expr, ctx))"))]
+    chk.require(len(lets) == 1 and lets[0]["effects"] == want and lets[0]["kind"] == "loop" and lets[0]["next"] is None, "AUT", "AUT:3:let", "eval(expr) once, then set(name, that value); stays in the fetch state", "let edges: %s" % [(e["effects"], e["next"]) for e in lets])
+    # 4. frames
+    frames_obligation(chk, A)
+    # 5. bound evaluated once, on the edge leaving the fetch state
+    bound_evals = [(role(e), stmt_kind(e)) for e in A.edges for n, a in e["effects"] if n == "eval" and a[0].endswith(".max")]
+    good = bool(bound_evals) and all(x == ("fetch", "Loop") for x in bound_evals)
+    loops = [e for e in F if stmt_kind(e) == "Loop" and e["shape"] != "Err"]
+    good = good and len(loops) == 1 and loops[0]["effects"] == [("next", ("self.stmt_iter",)), ("eval", ("(STMT as Loop).max", "ctx"))] and nxt(loops[0]) == "loop_entry" \
+        and re.fullmatch(r"StmtIteratorState::\w+\{0: stmt::LoopState\{variable: \(STMT as Loop\)\.variable, max: try\(Expr::eval\(\(STMT as Loop\)\.max, ctx\)\), stmts: \(STMT as Loop\)\.inner\}\}", loops[0]["next"][1]) is not None
+    chk.require(good, "AUT", "AUT:5:bound-evaluated-once-on-entry", "LoopState{variable, max: eval(max)?, stmts: inner} built on the fetch edge; no other edge evaluates the bound", "bound evaluations at %s; loop edge %s" % (bound_evals, [(e["effects"], e["next"]) for e in loops]))
+    # 6/7. counter protocol and zero-trip guard
+    LE = [e for e in A.edges if role(e) == "loop_entry"]
+    enter = [e for e in LE if nxt(e) == "body_start"]
+    skip = [e for e in LE if nxt(e) == "fetch"]
+    good = len(enter) == 1 and len(skip) == 1 and ("Gt", "ST.0.max", "0") in enter[0]["guards"] and ("Le", "ST.0.max", "0") in skip[0]["guards"] and skip[0]["effects"] == [] \
+        and enter[0]["effects"] == [("push_frame", ("ctx",)), ("set", ("ctx", "ST.0.variable", "0"))] and enter[0]["next"][1].endswith("{0: ST.0}")
+    chk.require(good, "AUT", "AUT:7:zero-trip-guard", "first body run guarded by 0 < max; otherwise straight back to the fetch state with no effect", "loop entry edges: %s" % [(e["guards"], e["effects"], nxt(e)) for e in LE])
+    EN = [e for e in A.edges if role(e) == "loop_end"]
+    again = [e for e in EN if nxt(e) == "body_start"]
+    leave = [e for e in EN if nxt(e) == "fetch"]
+    good = len(again) == 1 and len(leave) == 1
+    if good:
+        lt = [g for g in again[0]["guards"] if g[0] == "Lt" and g[2] == "ST.0.max"]
+        ge = [g for g in leave[0]["guards"] if g[0] == "Ge" and g[2] == "ST.0.max"]
+        good = len(lt) == 1 and len(ge) == 1 and lt[0][1] == ge[0][1] and STEP.match(lt[0][1]) is not None
+        if good:
+            v = lt[0][1]
+            good = again[0]["effects"] == [("get", ("ctx", "ST.0.variable")), ("set", ("ctx", "ST.0.variable", v))] and leave[0]["effects"] == [("get", ("ctx", "ST.0.variable")), ("pop_frame", ("ctx",))] and again[0]["next"][1].endswith("{0: ST.0}")
+    chk.require(good, "AUT", "AUT:6:counter-protocol", "value = prev + 1; value < max => set(variable, value), next iteration; else pop_frame, back to fetch", "loop end edges: %s" % [(e["guards"], e["effects"], nxt(e)) for e in EN])
+    # 8. body
+    BS = [e for e in A.edges if role(e) == "body_start"]
+    good = len(BS) == 1 and BS[0]["effects"] == [] and nxt(BS[0]) == "body_run" and re.fullmatch(r"StmtIteratorState::\w+\{inner_iterator: Box::new\(stmt::StmtIterator\{stmt_iter: \[T\]::iter\(ST\.0\.stmts\), inner_state: StmtIteratorState::(\w+)\{\}\}\), loop_state: ST\.0\}", BS[0]["next"][1]) is not None
+    if good:
+        m = re.search(r"inner_state: StmtIteratorState::(\w+)\{\}", BS[0]["next"][1])
+        good = R.get(m.group(1)) == "fetch"
+    chk.require(good, "AUT", "AUT:8:body-iterator-over-the-loop-body", "nested StmtIterator over LoopState.stmts starting in the fetch state", "body start edges: %s" % [(e["effects"], e["next"]) for e in BS])
+    for rname, after, payload in (("body_run", "loop_end", "loop_state"), ("while_run", "while_test", "while_state")):
+        E = [e for e in A.edges if role(e) == rname]
+        some = [e for e in E if e["shape"] == "Some(?)" or (e["ret"] or "").startswith("Result::Ok{0: Option::Some")]
+        done = [e for e in E if e["kind"] == "loop"]
+        errs = [e for e in E if e["shape"] == "Err"]
+        call = ("next_with_context", ("ST.inner_iterator", "ctx"))
+        good = len(some) == 1 and len(done) == 1 and len(errs) == 1 and all(e["effects"] == [call] for e in E) \
+            and some[0]["ret"] == "Result::Ok{0: Option::Some{0: some!(try(StmtIterator::next_with_context(ST.inner_iterator, ctx)))}}" \
+            and nxt(done[0]) == after and done[0]["next"][1].endswith("{0: ST.%s}" % payload) \
+            and errs[0]["ret"] == "FromResidual::from_residual(break!(Try::branch(StmtIterator::next_with_context(ST.inner_iterator, ctx))))"
+        chk.require(good, "AUT", "AUT:8:%s-drains-the-nested-iterator" % rname, "rows forwarded unchanged; None => %s; errors propagated with `?`" % after, "%s edges: %s" % (rname, [(e["effects"], e["ret"], nxt(e)) for e in E]))
+    # 9. while
+    whiles = [e for e in F if stmt_kind(e) == "While"]
+    good = len(whiles) == 1 and whiles[0]["effects"] == [("next", ("self.stmt_iter",))] and nxt(whiles[0]) == "while_test" and whiles[0]["next"][1].endswith("{0: stmt::WhileState{condition: (STMT as While).condition, stmts: (STMT as While).inner}}")
+    chk.require(good, "AUT", "AUT:9:while-entry", "WhileState{condition, stmts: inner}; nothing evaluated yet", "while fetch edges: %s" % [(e["effects"], e["next"]) for e in whiles])
+    WT = [e for e in A.edges if role(e) == "while_test"]
+    ev = ("eval", ("ST.0.condition", "ctx"))
+    run_ = [e for e in WT if nxt(e) == "while_run"]
+    out_ = [e for e in WT if nxt(e) == "fetch"]
+    C = "try(Expr::eval(ST.0.condition, ctx))"
+    good = len(run_) == 1 and len(out_) == 1 and all(e["effects"] == [ev] for e in WT) and ("Ne", C, "0") in run_[0]["guards"] and ("Eq", C, "0") in out_[0]["guards"] \
+        and re.fullmatch(r"StmtIteratorState::\w+\{inner_iterator: Box::new\(stmt::StmtIterator\{stmt_iter: \[T\]::iter\(ST\.0\.stmts\), inner_state: StmtIteratorState::\w+\{\}\}\), while_state: ST\.0\}", run_[0]["next"][1]) is not None
+    chk.require(good, "AUT", "AUT:9:while-test", "condition evaluated on entry and after every completed body; body entered iff != 0; leaving restores the fetch state", "while test edges: %s" % [(e["guards"], e["effects"], nxt(e)) for e in WT])
+    wfx = [n for e in A.edges if role(e) in ("while_test", "while_run") for n, a in e["effects"] if n in ("push_frame", "pop_frame", "set")]
+    chk.require(not wfx, "AUT", "AUT:9:while-opens-no-scope", "no push/pop/set on any while edge", "while edges perform %s" % wfx)
+    # 10. resetRandom
+    rr = [e for e in F if stmt_kind(e) == "ResetRandom"]
+    chk.require(len(rr) == 1 and rr[0]["effects"] == [("next", ("self.stmt_iter",)), ("reset_random_seed", ("ctx",))] and rr[0]["next"] is None, "AUT", "AUT:10:resetRandom", "exactly one reset_random_seed and nothing else", "resetRandom edges: %s" % [(e["effects"], e["next"]) for e in rr])
+    # every statement kind is handled
+    kinds = sorted(set(k for k in (stmt_kind(e) for e in F) if k))
+    chk.require(kinds == ["DataRow", "Let", "Loop", "ResetRandom", "While"], "AUT", "AUT:1:every-statement-kind-dispatched", str(kinds), "fetch state handles %s" % kinds)
+    # error edges: only `?`
+    errs = [e for e in A.edges if e["shape"] == "Err"]
+    chk.require(all((e["ret"] or "").startswith("FromResidual::from_residual(break!(") for e in errs), "AUT", "AUT:errors-propagated", "%d error edges, all `?`" % len(errs), "error edges: %s" % [e["ret"][:80] for e in errs if not (e["ret"] or "").startswith("FromResidual")])
+    init = set()
+    nb = P.body("stmt::StmtIterator::new")
+    if nb is not None:
+        for (cb, bb, i, st) in P.constructors("stmt::StmtIterator"):
+            if cb is nb:
+                f = {k: canon(v) for k, v in P.sl(cb).rvalue(st["rv"], bb, i)[3]}
+                m = re.fullmatch(r"StmtIteratorState::(\w+)\{\}", f.get("inner_state", ""))
+                chk.require(f.get("stmt_iter") == "[T]::iter(stmts)" and m is not None and R.get(m.group(1)) == "fetch", "AUT", "AUT:initial-state", "StmtIterator::new: stmts.iter(), fetch state", "StmtIterator::new builds %s" % f)
+    supporting(chk, P)
+
+
+def supporting(chk, P):
+    # FramedMap discipline
+    st = P.body(FM + "set")
+    if chk.anchor("FramedMap::set", st):
+        calls = [(callee_name(t)[0].split("::")[-1], [canon(x) for x in P.call_arg_terms(st, bb)]) for bb, t in st.calls()]
+        fm = [a for n, a in calls if n == "find"]
+        START = "ops::RangeFrom{start: Option::unwrap_or([T]::last(self.frame_stack), 0)}"
+        good = fm == [["[T]::iter_mut(IndexMut::index_mut(self.values, %s))" % START, "closure({closure#0})"]]
+        chk.require(good, "TAB", "TAB:FramedMap::set:searches-innermost-frame-only", "values[frame_start..].iter_mut().find(..) with frame_start = last mark or 0", "FramedMap::set searches %s" % fm)
+        rows = set()
+        for pi in tab.paths(P, st, to_return_only=True):
+            d = [x[2] for x in pi.decisions() if x[0] == "variant" and x[1].startswith("Iterator::find(")]
+            pushes = [tuple(canon(x) for x in a) for bb, nm, a in pi.calls() if nm == "std::vec::Vec::push"]
+            writes = []
+            for bb in pi.path:
+                for i, s_ in enumerate(st.blocks[bb]["stmts"]):
+                    if s_["s"] == "assign" and s_["lhs"]["p"] and s_["lhs"]["p"][0] == "*" and s_["lhs"]["l"] != 1:
+                        writes.append(canon(pi.sl.rvalue(s_["rv"], bb, i)))
+            rows.add((d[0] if d else None, tuple(pushes), tuple(writes)))
+        want = {(("Some",), (), ("value",)), (("None",), (("self.values", "tuple(Into::into(key), value)"),), ())}
+        chk.require(rows == want, "TAB", "TAB:FramedMap::set:overwrite-or-append", "found in the innermost frame => overwrite; else append", "FramedMap::set rows: %s" % sorted(rows, key=str))
+        cl = P.body(FM + "set::{closure#0}")
+        if cl is not None:
+            pt = tab.predicate_table(P, cl)
+            chk.require(pt == {(frozenset(), "PartialEq::eq(elem([T]::iter_mut(IndexMut::index_mut(self.values, %s))).0, Into::into(key))" % START)}, "TAB", "TAB:FramedMap::set:key-test", "|entry| entry.0 == key", "set's key test: %s" % sorted(pt, key=str))
+    g = P.body(FM + "get")
+    if chk.anchor("FramedMap::get", g):
+        r = set(canon(P.sl(g).ret(rb)) for rb in P.cfg(g).return_blocks())
+        chk.require(r == {"Option::map(Iterator::find(Iterator::rev([T]::iter(self.values)), closure({closure#0})), closure({closure#1}))"}, "TAB", "TAB:FramedMap::get:innermost-first", "values.iter().rev().find(..).map(|e| e.1)", "FramedMap::get returns %s" % r)
+        c0, c1 = P.body(FM + "get::{closure#0}"), P.body(FM + "get::{closure#1}")
+        if c0 is not None and c1 is not None:
+            E = "elem(Iterator::rev([T]::iter(self.values)))"
+            p0, p1 = tab.predicate_table(P, c0), tab.predicate_table(P, c1)
+            chk.require(p0 == {(frozenset(), "PartialEq<&B> for &A>::eq(%s.0, key)" % E)} and len(p1) == 1 and list(p1)[0][1].endswith(".1"), "TAB", "TAB:FramedMap::get:closures", "key equality; value projection", "get closures: %s / %s" % (sorted(p0, key=str), sorted(p1, key=str)))
+    pf = P.body(FM + "push_frame")
+    if chk.anchor("FramedMap::push_frame", pf):
+        a = [[canon(x) for x in P.call_arg_terms(pf, bb)] for bb, t in pf.calls() if callee_name(t)[0] == "std::vec::Vec::push"]
+        chk.require(a == [["self.frame_stack", "Vec::len(self.values)"]], "TAB", "TAB:FramedMap::push_frame", "records values.len()", "push_frame pushes %s" % a)
+    po = P.body(FM + "pop_frame")
+    if chk.anchor("FramedMap::pop_frame", po):
+        a = [[canon(x) for x in P.call_arg_terms(po, bb)] for bb, t in po.calls() if callee_name(t)[0] == "std::vec::Vec::truncate"]
+        chk.require(a == [["self.values", "Option::unwrap_or(Vec::pop(self.frame_stack), 0)"]], "TAB", "TAB:FramedMap::pop_frame", "truncates to the popped mark", "pop_frame truncates %s" % a)
+    for fld, allowed in (("values", {FM + "set", FM + "pop_frame"}), ("frame_stack", {FM + "push_frame", FM + "pop_frame"})):
+        w = set(x[0].name.split("::{closure")[0] for x in P.field_writers("framed_map::FramedMap", fld))
+        chk.require(w <= allowed, "WHO", "WHO:FramedMap.%s-writers" % fld, str(sorted(w)), "FramedMap.%s mutated in %s" % (fld, sorted(w - allowed)))
+    for fn, callee, args in ((EC + "set", FM + "set", ["self.vars", "name", "value"]), (EC + "push_frame", FM + "push_frame", ["self.vars"]), (EC + "pop_frame", FM + "pop_frame", ["self.vars"])):
+        b = P.body(fn)
+        if chk.anchor(fn, b):
+            cs = [(callee_name(t)[0], [canon(x) for x in P.call_arg_terms(b, bb)]) for bb, t in b.calls()]
+            chk.require(cs == [(callee, args)], "ORG", "ORG:%s-forwards-to-vars" % fn.split("::")[-1], "", "%s calls %s" % (fn, cs))
+    from .iter_rules import get_shape_rule
+    get_shape_rule(chk, P)
+    # DataEntry::eval
+    ev = P.body("stmt::DataEntry::eval")
+    if chk.anchor("DataEntry::eval", ev):
+        rows = {}
+        for pi in tab.paths(P, ev, to_return_only=True):
+            v = [d[2] for d in pi.decisions() if d[0] == "variant" and d[1] == "self"]
+            if ordrules.ret_shape(pi) != "Ok":
+                continue
+            for vn in (v[0] if v else ("*",)):
+                rows[vn] = canon(terms.strip(pi.ret())[3][0][1])
+        want = {"Expr": "vec!(array(DataEntry::Number{0: try(Expr::eval((self as Expr).0, ctx))}))",
+                "Bits": "Iterator::collect(Iterator::map(Iterator::rev(ops::Range{start: 0, end: (self as Bits).number}), closure({closure#0})))"}
+        for v in ("X", "Z", "C", "Number"):
+            want[v] = "vec!(array(Clone::clone(self)))"
+        chk.require(rows == want, "TAB", "TAB:DataEntry::eval", "Expr -> [Number(eval)]; X/Z/C/Number -> itself; Bits -> (0..number).rev().map(bit)", "DataEntry::eval rows: %s" % rows)
+        cl = P.body("stmt::DataEntry::eval::{closure#0}")
+        if cl is not None:
+            r = set(canon(P.resolve(cl, P.sl(cl).ret(rb))) for rb in P.cfg(cl).return_blocks())
+            N = "elem(Iterator::rev(ops::Range{start: 0, end: (self as Bits).number}))"
+            V = "try(Expr::eval((self as Bits).expr, ctx))"
+            chk.require(r == {"DataEntry::Number{0: BitAnd(Shr(%s, %s), 1)}" % (V, N)}, "TAB", "TAB:bits:most-significant-first", "(value >> n) & 1 for n = number-1 .. 0", "bits expansion closure returns %s" % r)
+    # parser desugaring
+    psb = P.body("parser::stmt::<impl parser::Parser>::parse_stmt_block")
+    if chk.anchor("parse_stmt_block", psb):
+        built = {}
+        for (cb, bb, i, st) in P.constructors("stmt::Stmt"):
+            if cb is not psb:
+                continue
+            arms = [a for a in pan.arm_context(psb, bb, P.cfg(psb)) if a.get("enum", "").endswith("TokenKind") and canon(a["on"]) == "Parser::peek(self)"]
+            k = tuple(arms[-1]["variants"]) if arms else None
+            f = {kk: canon(v) for kk, v in P.sl(cb).rvalue(st["rv"], bb, i)[3]}
+            built.setdefault(k, []).append((st["rv"]["variant"], f))
+        IDENT = "Parser::text(self, try(Parser::expect(self, TokenKind::Ident{})))"
+        lp = built.get(("Loop",), [])
+        good = len(lp) == 1 and lp[0] == ("Loop", {"variable": "ToString::to_string(%s)" % IDENT, "max": "try(Parser::parse_expr(self))", "inner": "try(Parser::parse_stmt_block(self, Option::Some{0: TokenKind::Loop{}}))"})
+        chk.require(good, "TAB", "TAB:parser:loop", "Loop{variable: <ident>, max: <expr>, inner: <block>}", "loop statement built as %s" % lp)
+        rp = built.get(("Repeat",), [])
+        row = ("DataRow", {"data": "try(Parser::parse_data_row(self))", "line": "self.line"})
+        good = len(rp) == 2 and row in rp and any(v == "Loop" and f.get("variable") == "Into::into('n')" and f.get("max") == "try(Parser::parse_expr(self))" and re.fullmatch(r"vec!\(array\((?:stmt::)?Stmt::DataRow\{data: try\(Parser::parse_data_row\(self\)\), line: self\.line\}\)\)", f.get("inner", "")) for v, f in rp)
+        chk.require(good, "TAB", "TAB:parser:repeat", "repeat(n) row => Loop{variable: \"n\", max: <expr>, inner: [row]}", "repeat statement built as %s" % rp)
+        wh = built.get(("While",), [])
+        good = len(wh) == 1 and wh[0] == ("While", {"condition": "try(Parser::parse_expr(self))", "inner": "try(Parser::parse_stmt_block(self, Option::Some{0: TokenKind::While{}}))"})
+        chk.require(good, "TAB", "TAB:parser:while", "While{condition, inner}", "while statement built as %s" % wh)
+        lt = built.get(("Let",), [])
+        good = len(lt) == 1 and lt[0] == ("Let", {"name": "ToString::to_string(%s)" % IDENT, "expr": "try(Parser::parse_expr(self))"})
+        chk.require(good, "TAB", "TAB:parser:let", "Let{name, expr}", "let statement built as %s" % lt)
+        # statements are pushed in source order
+        pushes = [canon(P.call_arg_terms(psb, bb)[0]) for bb, t in psb.calls() if callee_name(t)[0] == "std::vec::Vec::push"]
+        chk.require(len(pushes) >= 6 and set(pushes) == {"Vec::new()"}, "ORD", "ORD:parser:statements-appended-in-order", "%d block.push sites" % len(pushes), "statements pushed into %s" % sorted(set(pushes)))
+        r = set()
+        for (cb, bb, i, st) in P.constructors("std::result::Result::Ok"):
+            if cb is psb:
+                r.add(canon(P.sl(cb).rvalue(st["rv"], bb, i)[3][0][1]))
+        chk.require(r == {"Vec::new()"}, "ORG", "ORG:parser:block-returned", "Ok(block)", "parse_stmt_block returns %s" % r)
